@@ -480,9 +480,11 @@ def finish(ctx):
     ev = {"property_id": prop.ID, "tier": ctx.tier, "seed": ctx.seed, "level": "proof",
           "coverage": cov, "assumptions": list(getattr(prop, "ASSUMPTIONS", [])),
           "wall_s": round(wall, 2), "violations": len(ctx.violations)}
-    os.makedirs(os.path.join(VERIF, "evidence"), exist_ok=True)
-    with open(os.path.join(VERIF, "evidence", prop.ID + ".json"), "w") as f:
-        json.dump(ev, f, indent=1, default=str)
+    if os.path.realpath(REPO) == "/repo":
+        # evidence is only ever written by runs against /repo itself
+        os.makedirs(os.path.join(VERIF, "evidence"), exist_ok=True)
+        with open(os.path.join(VERIF, "evidence", prop.ID + ".json"), "w") as f:
+            json.dump(ev, f, indent=1, default=str)
     for fid, what in sorted(ctx.known.items()):
         print("KNOWN-FINDING: property=%s %s %s" % (prop.ID, fid, what))
     for path, suffix in ctx.violations:
